@@ -96,3 +96,8 @@ impl ConstantFolder {
         ))
     }
 }
+
+// verification hook (compiled only by Kani): proof harnesses for the folding kernels, which are
+// pub(super) and therefore only callable from a child of this module; see /verif/DESIGN.md C01
+#[cfg(kani)]
+mod verif_fold;
